@@ -48,4 +48,12 @@ let () =
          let r = overlay (parse l (bytes_of_hex hexline)) (recval_of init) in
          let parts = List.sort compare (List.map (show_field r) init) in
          print_endline (String.concat " " parts))
+    | ["F"; h] ->
+      (* framing: per framed line, "<lineNum>:len<n>" when it is not 94 characters long, then "type:<first byte>" *)
+      let lines = frame (chars (bytes_of_hex h)) [] O O in
+      let parts = List.concat_map (fun (ln, line) ->
+        let n = int_of_nat (rune_count line) in
+        let first = match line with b :: _ -> hex_of_bytes [b] | [] -> "-" in
+        (if n = 94 then [] else [Printf.sprintf "%d:len%d" (int_of_nat ln) n]) @ ["type:" ^ first]) lines in
+      print_endline (if parts = [] then "-" else String.concat " " parts)
     | _ -> print_endline "?")
